@@ -239,6 +239,9 @@ func (l *lexer) Lex(lval *yySymType) (tokenType int) {
 			l.offset += size - 1
 			l.token = l.source[l.offset-size : l.offset]
 		}
+	case 0: // not the end of the query, which the parser takes 0 for
+		l.token = l.source[l.offset-1 : l.offset]
+		return tokInvalid
 	}
 	return int(ch)
 }
